@@ -275,6 +275,10 @@ pub struct Cfg {
     /// that a build which ignores the directory given to Writer::set_tmpdir fails instead of going unnoticed
     #[serde(default)]
     pub default_tmp_unusable: bool,
+    /// the ArroyBuilder is created on a thread of a one-thread rayon pool (an application configuring its
+    /// builder in one pool and running `build` in another); the build itself runs where it always does
+    #[serde(default)]
+    pub builder_made_in_one_thread_pool: bool,
     /// with reuse_builder: the options (n_trees, split_after, available_memory) of the long-lived builder of
     /// each index slot, fixed by the plan so that they do not depend on which build happens to run first
     #[serde(default)]
@@ -445,7 +449,7 @@ pub fn gen_history_with(seed: u64, focus: &str, thorough: bool, forced: Option<V
         k.max_indexes = 1;
         k.metric_change_pct = 0;
         k.big_insert_pct = 100;
-    } else if matches!(focus, "C01" | "C02" | "C03" | "C05" | "C13" | "C15" | "C20") && r.chance(if focus == "C20" { 12 } else { 4 }, 100) {
+    } else if matches!(focus, "C01" | "C02" | "C03" | "C05" | "C08" | "C13" | "C15" | "C20") && r.chance(if focus == "C20" { 12 } else { 4 }, 100) {
         k.min_items_first = 200;
         k.mem_hint_pct = 85;
         k.max_rounds = 3;
@@ -738,6 +742,28 @@ pub fn gen_history_with(seed: u64, focus: &str, thorough: bool, forced: Option<V
                 }
             }
         }
+        // several indexes change their metric in a row, without a build in between (an index between its
+        // metric change and its rebuild holds items only), in descending, ascending or random order
+        if indexes.len() > 1 && !k.only_cosine && matches!(focus, "C07" | "C18" | "C16") && r.chance(k.metric_change_pct, 200) {
+            let mut order: Vec<usize> = (0..indexes.len()).collect();
+            match r.below(3) {
+                0 => order.reverse(),
+                1 => {}
+                _ => {
+                    for i in (1..order.len()).rev() {
+                        order.swap(i, r.below(i as u64 + 1) as usize);
+                    }
+                }
+            }
+            for ix in order {
+                let to = *r.pick(&crate::metric::ALL_METRICS);
+                steps.push(Step::ChangeMetric { ix, to });
+                shadows[ix].metric = to;
+                if !builds_pending.contains(&ix) {
+                    builds_pending.push(ix);
+                }
+            }
+        }
         // occasionally a metric change right before the build, or on an empty index
         if r.chance(k.metric_change_pct, 100) && !k.only_cosine {
             let ix = r.below(indexes.len() as u64) as usize;
@@ -854,6 +880,7 @@ pub fn gen_history_with(seed: u64, focus: &str, thorough: bool, forced: Option<V
             reuse_writer: r.chance(1, 2),
             reuse_builder: false,
             default_tmp_unusable: false,
+            builder_made_in_one_thread_pool: false,
             builder_opts: Vec::new(),
             queries: 3 + r.below(4) as usize,
             query_seed: r.next(),
@@ -866,6 +893,7 @@ pub fn gen_history_with(seed: u64, focus: &str, thorough: bool, forced: Option<V
     };
     // (drawn last, so that the rest of the plan does not depend on it)
     plan.cfg.default_tmp_unusable = plan.cfg.private_tmpdir && r.chance(1, 2);
+    plan.cfg.builder_made_in_one_thread_pool = r.chance(if focus == "C13" { 25 } else { 5 }, 100);
     plan
 }
 
